@@ -164,6 +164,8 @@ theorem nondestructive_only_allocates {h h' : Heap} {op : Op} {res : Ref}
   | nreverse x => simp [Op.destructive] at hnd
   | sort desc key x => simp [Op.destructive] at hnd
   | delete p x => simp [Op.destructive] at hnd
+  | carmap f x => simp [Op.destructive] at hnd
+  | nbutlast k x => simp [Op.destructive] at hnd
 
 /-- **nondestructive_frame.** An operation that is not documented as destructive leaves every
     existing cell unchanged, hence every existing list keeps its cells and its printed contents. -/
@@ -334,6 +336,28 @@ theorem destructive_writes_within_footprint {h h' : Heap} {op : Op} {res : Ref}
       apply linkCells_notin
       intro hm
       exact hfp (applyMask_subset hm)
+  | carmap f x =>
+    unfold run at hr
+    cases hx : chainOf h x with
+    | error e => simp [hx, bind, Except.bind] at hr
+    | ok as =>
+      have hfp : a ∉ as := by simpa [footprint, Op.destructive, Op.listArgs, hx] using hnf
+      cases hv : f.app (carsOf h as) with
+      | error e => simp [hx, hv, bind, Except.bind] at hr
+      | ok vs =>
+        simp [hx, hv, bind, Except.bind] at hr
+        rw [← hr.1]; exact writeCars_notin _ _ _ hfp
+  | nbutlast k x =>
+    unfold run at hr
+    cases hx : chainOf h x with
+    | error e => simp [hx, bind, Except.bind] at hr
+    | ok as =>
+      have hfp : a ∉ as := by simpa [footprint, Op.destructive, Op.listArgs, hx] using hnf
+      simp [hx, bind, Except.bind] at hr
+      rw [← hr.1]
+      apply linkCells_notin
+      intro hm
+      exact hfp (List.mem_of_mem_take hm)
 
 /-- **destructive_footprint.** `nconc nreverse sort delete rplaca rplacd (setf car/nth/elt) add`
     change only cells reachable from their list arguments: a list none of whose cells is reachable
@@ -493,6 +517,8 @@ theorem extending_writes_only_nil_cdrs {h h' : Heap} {op : Op} {res : Ref}
     | nreverse x => simp [Op.extending] at hx
     | sort desc key x => simp [Op.extending] at hx
     | delete p x => simp [Op.extending] at hx
+    | carmap f x => simp [Op.extending] at hx
+    | nbutlast k x => simp [Op.extending] at hx
 
 /-- **extend_no_overwrite.** Extending a list by `cons push list* append add nconc` never overwrites
     an element reachable from any variable: whatever list `r` denoted before, its cells and its
@@ -609,6 +635,8 @@ theorem extending_empty_changes_nothing {h h' : Heap} {op : Op} {res x : Ref}
       | nreverse x => simp [Op.extending] at hx
       | sort d k x => simp [Op.extending] at hx
       | delete p x => simp [Op.extending] at hx
+      | carmap f x => simp [Op.extending] at hx
+      | nbutlast k x => simp [Op.extending] at hx
   refine ⟨hgrow, ?_⟩
   intro n r as hc
   obtain ⟨ext, hext⟩ := hgrow
@@ -827,6 +855,8 @@ theorem nondestructive_refines_value {h h' : Heap} {op : Op} {res : Ref} {xs ys 
   | nreverse x => simp [Op.destructive] at hnd
   | sort desc key x => simp [Op.destructive] at hnd
   | delete p x => simp [Op.destructive] at hnd
+  | carmap f x => simp [Op.destructive] at hnd
+  | nbutlast k x => simp [Op.destructive] at hnd
 
 
 /-- For every destructive operation (`rplaca`, `(setf nth)`, `rplacd`, `nconc`, `add`, `nreverse`,
@@ -1029,6 +1059,39 @@ theorem destructive_refines_value {h h' : Heap} {op : Op} {res : Ref} {xs ys : L
       rw [chain_linkCells (applyMask_nodup (chain_nodup hch)) (fun a ha => hlt a (applyMask_subset ha))]
       simp only [Option.map_some, carsOf_linkCells]
       rw [carsOf_applyMask _ hlt, hxs]; rfl
+  | carmap f x =>
+    unfold run at hr
+    cases hcx : chainOf h x with
+    | error e => simp [hcx, bind, Except.bind] at hr
+    | ok as =>
+      have hxs := args_val hcx (hx x rfl)
+      have hch := chainOf_ok.mp hcx
+      have hlt := chain_lt hch
+      cases hv : f.app (carsOf h as) with
+      | error e => simp [hcx, hv, bind, Except.bind] at hr
+      | ok vs =>
+        simp [hcx, hv, bind, Except.bind] at hr
+        refine ⟨stdFuel h, vs, by simp [valueOf, hxs, hv], ?_⟩
+        rw [← hr.1, ← hr.2]
+        unfold contents
+        rw [chain_writeCars, hch]
+        simp only [Option.map_some]
+        rw [carsOf_writeCars (chain_nodup hch) hlt (by rw [FnD.app_length hv, carsOf_length hlt])]
+  | nbutlast k x =>
+    unfold run at hr
+    cases hcx : chainOf h x with
+    | error e => simp [hcx, bind, Except.bind] at hr
+    | ok as =>
+      have hxs := args_val hcx (hx x rfl)
+      have hch := chainOf_ok.mp hcx
+      simp [hcx, bind, Except.bind] at hr
+      have hlt := chain_lt hch
+      refine ⟨(as.take (as.length - k)).length, vButlast k xs, rfl, ?_⟩
+      rw [← hr.1, ← hr.2]
+      unfold contents
+      rw [chain_linkCells ((chain_nodup hch).sublist (List.take_sublist _ _)) (fun a ha => hlt a (List.mem_of_mem_take ha))]
+      simp only [Option.map_some, carsOf_linkCells]
+      rw [carsOf_take _ hlt, hxs, vButlast, carsOf_length hlt]
   | lit vs => simp [Op.destructive] at hd
   | alias x => simp [Op.destructive] at hd
   | cons v x => simp [Op.destructive] at hd
@@ -1163,6 +1226,8 @@ theorem fresh_result_independent {h h' : Heap} {op : Op} {res : Ref}
   | nreverse x => simp [Op.freshResult] at hf
   | sort desc key x => simp [Op.freshResult] at hf
   | delete p x => simp [Op.freshResult] at hf
+  | carmap f x => simp [Op.freshResult] at hf
+  | nbutlast k x => simp [Op.freshResult] at hf
 
 /-- `cdr rest nthcdr pop last member (setq d a)` allocate nothing and return a tail of their
     argument (the sharing the language prescribes). -/
@@ -1214,6 +1279,8 @@ theorem tail_result_shares {h h' : Heap} {op : Op} {res : Ref} {x : Ref}
   | nreverse x => simp [Op.tailResult] at ht
   | sort desc key x => simp [Op.tailResult] at ht
   | delete p x => simp [Op.tailResult] at ht
+  | carmap f x => simp [Op.tailResult] at ht
+  | nbutlast k x => simp [Op.tailResult] at ht
 
 /-- `cons push list* append`: the result is fresh cells followed by exactly the cells of the last
     argument (the only sharing the language prescribes). -/
@@ -1298,6 +1365,8 @@ theorem ext_result_shares_only_last_arg {h h' : Heap} {op : Op} {res y : Ref} {n
   | nreverse x => simp [Op.extending] at hx
   | sort desc key x => simp [Op.extending] at hx
   | delete p x => simp [Op.extending] at hx
+  | carmap f x => simp [Op.extending] at hx
+  | nbutlast k x => simp [Op.extending] at hx
 
 /-! ## value laws of (B) -/
 
